@@ -181,8 +181,7 @@ func pgParseRows(ds string) []*pgThing {
 			e.S = &v
 		}
 		if f[6] != "N" {
-			ns, _ := strconv.ParseInt(f[6], 10, 64)
-			v := time.Unix(0, ns).UTC()
+			v := pgTimeOf(f[6])
 			e.T = &v
 		}
 		if len(f[7]) > 1 {
@@ -356,8 +355,7 @@ func pgConstText(field, tok string) string {
 	case "s", "id":
 		return strconv.Quote(fromWire(orDash(tok[1:])))
 	case "t":
-		ns, _ := strconv.ParseInt(tok, 10, 64)
-		return "datetime(" + time.Unix(0, ns).UTC().Format(time.RFC3339Nano) + ")"
+		return "datetime(" + pgTimeOf(tok).Format(time.RFC3339Nano) + ")"
 	}
 	return tok
 }
@@ -438,8 +436,21 @@ var pgStrPool = []string{"N", "S", "S61", "S42", "S6162", "S62", "S61"}
 var pgStrConsts = []string{"S", "S61", "S6162", "S62"}
 
 // 2020-01-01T00:00:00Z, 2021-03-04T05:06:07Z, +1ns, 1969-12-31T23:59:59Z
-var pgTimePool = []string{"N", "1577836800000000000", "1614834367000000000", "1614834367000000001", "-1000000000", "1614834367000000000"}
-var pgTimeConsts = []string{"1577836800000000000", "1614834367000000000", "-1000000000"}
+var pgTimePool = []string{"N", "1577836800000000000", "1614834367000000000", "1614834367000000001", "-1000000000", "1614834367000000000", pgZeroTime}
+var pgTimeConsts = []string{"1577836800000000000", "1614834367000000000", "-1000000000", pgZeroTime}
+
+// pgZeroTime is the zero time.Time (January 1, year 1 UTC) in nanoseconds since the Unix epoch; it does not fit an
+// int64, so it travels as this decimal string (the Lean side reads an unbounded Int).  A non-nil pointer to the zero
+// time is a value, not null.
+const pgZeroTime = "-62135596800000000000"
+
+func pgTimeOf(tok string) time.Time {
+	if tok == pgZeroTime {
+		return time.Time{}
+	}
+	ns, _ := strconv.ParseInt(tok, 10, 64)
+	return time.Unix(0, ns).UTC()
+}
 var pgRolePool = []string{"r", "w", "x"}
 var pgSortFields = []string{"id", "b", "i", "n", "f", "s", "t"}
 var pgOps = []string{"eq", "ne", "lt", "le", "gt", "ge"}
